@@ -20,6 +20,17 @@
 //        return type <ptype>: d double lambda, fn penalty_func_t (std::function), fl float, i int,
 //        u unsigned, l long long, ul std::size_t, b bool; <penalty> = bit pattern (d, fn, fl) or a decimal integer)
 //        -> ok fitv <k> <v>*k outs … diff …
+//   hist <reg|cls> <kind> <fast 0|1> <x_slot> <prog> op…      ONE evaluator object bound to ONE dataframe that changes under it
+//        ops:  C (construct the evaluator now: possibly on the still empty frame)   V (evaluate now)   E <k> (erase the first k rows)
+//              L <n> rows… (reload: read_csv again for cls – the class table only grows –, clear + push_back for reg)
+//              A <n> rows… (append: push_back; a new class name is registered with dataframe::encode)
+//        rows as in reg / cls.  -> ok rec | rec | …  one record per V:  skip-<why>  or
+//              reg:  fit <v> targets <t>*n dbefore <d>*n outs <o>*n diff <d>*n
+//              cls:  fit <v> classes <C> members <M> mouts … tags … labels <l>*n dbefore <d>*n diff <d>*n
+//   big <kind> <fast 0|1> <x_slot> <n> <k> <pos>*k              scale-directed case built here: program X1,
+//        cls kinds: class A (even rows) X1 = -100, class B (odd rows) X1 = +100, the k rows <pos> (odd) are of class B with X1 = -100;
+//        reg kinds: X1 = (i mod 7) - 3, target = X1 except target = X1 + 1 on the k rows <pos>
+//        -> ok fit <v> n <N> moved <number of rows whose difficulty changed> rows <their indices, at most 20>
 //   tev <distinct|fixed|random> <fast 0|1> <k> <id>*k         (test_evaluator<i_de>, one object, k calls; the
 //        individual with id i has genome {i})      -> ok seq <v>*k   (`size=<s>` for a fitness of another size)
 //   small <value>  -> 0 | 1                                  (vita::issmall)
@@ -40,6 +51,7 @@
 #include "kernel/gp/team.h"
 
 #include <cmath>
+#include <map>
 #include <sstream>
 
 using namespace vita;
@@ -404,6 +416,248 @@ std::string do_gac(const std::vector<std::string> &t)
   return "bad-op";
 }
 
+// ---- histories: one evaluator object, a dataframe that changes under it ------------------
+template<class T>
+std::unique_ptr<evaluator<T>> make_eva(const std::string &kind, dataframe &d, unsigned x_slot)
+{
+  if (kind == "mae") return std::make_unique<mae_evaluator<T>>(d);
+  if (kind == "rmae") return std::make_unique<rmae_evaluator<T>>(d);
+  if (kind == "mse") return std::make_unique<mse_evaluator<T>>(d);
+  if (kind == "count") return std::make_unique<count_evaluator<T>>(d);
+  if (kind == "dyn") return std::make_unique<dyn_slot_evaluator<T>>(d, x_slot);
+  if (kind == "gau") return std::make_unique<gaussian_evaluator<T>>(d);
+  if (kind == "bin") return std::make_unique<binary_evaluator<T>>(d);
+  return nullptr;
+}
+
+template<class T>
+std::string tags_of(const std::string &kind, const T &prg, dataframe &d, unsigned x_slot)
+{
+  std::string tags(" tags");
+  auto dump = [&](const auto &lambda) {
+    for (const auto &e : d)
+    {
+      const auto r(lambda.tag(e));
+      tags += " " + std::to_string(r.label) + " " + showf(r.sureness);
+    }
+  };
+  if (kind == "dyn") dump(basic_dyn_slot_lambda_f<T, false, false>(prg, d, x_slot));
+  else if (kind == "gau") dump(basic_gaussian_lambda_f<T, false, false>(prg, d));
+  else dump(basic_binary_lambda_f<T, false, false>(prg, d));
+  return tags;
+}
+
+// `ids` mirrors the class table of the dataframe (names get consecutive ids in order of first import)
+bool parse_row(const std::vector<std::string> &t, std::size_t b, bool cls,
+               const std::map<std::string, class_t> &ids, dataframe::example &ex)
+{
+  if (cls)
+  {
+    const auto it(ids.find(t[b]));
+    if (it == ids.end()) return false;      // appended rows use classes the importer has seen
+    ex.output = static_cast<D_INT>(it->second);
+  }
+  else
+  {
+    double tg;
+    if (!parsef(t[b], tg)) return false;
+    ex.output = tg;
+  }
+  ex.input = {parsev(t[b + 1]), parsev(t[b + 2])};
+  ex.difficulty = std::stoull(t[b + 3]);
+  return true;
+}
+
+template<class T>
+std::string run_hist(const T &prg, bool cls, const std::string &kind, bool fast, unsigned x_slot,
+                     const std::vector<std::string> &t, std::size_t p)
+{
+  dataframe d;
+  std::map<std::string, class_t> ids;
+  std::unique_ptr<evaluator<T>> eva;
+  std::string ans("ok");
+  bool first(true);
+
+  while (p < t.size())
+  {
+    const std::string op(t[p++]);
+    if (op == "C") eva = make_eva<T>(kind, d, x_slot);
+    else if (op == "E")
+    {
+      if (p >= t.size()) return "bad-op";
+      const std::size_t k(std::min<std::size_t>(std::stoull(t[p++]), d.size()));
+      d.erase(d.begin(), std::next(d.begin(), static_cast<std::ptrdiff_t>(k)));
+    }
+    else if (op == "L" || op == "A")
+    {
+      if (p >= t.size()) return "bad-op";
+      const std::size_t n(std::stoull(t[p++]));
+      if (p + 4 * n > t.size()) return "bad-op";
+      if (op == "L")
+      {
+        if (cls)
+        {
+          // the importer run again on the same frame: rows replaced, the class table only grows
+          std::ostringstream csv;
+          for (std::size_t i(0); i < n; ++i) csv << "k" << t[p + 4 * i] << ",0.5,1.5\n";
+          std::istringstream in(csv.str());
+          if (d.read_csv(in, dataframe::params().no_header()) != n) return "bad-import";
+          std::size_t i(0);
+          for (auto &ex : d)
+          {
+            const auto it(ids.try_emplace(t[p + 4 * i], static_cast<class_t>(ids.size())).first);
+            if (it->second != label(ex)) return "bad-classmap";
+            ex.input = {parsev(t[p + 4 * i + 1]), parsev(t[p + 4 * i + 2])};
+            ex.difficulty = std::stoull(t[p + 4 * i + 3]);
+            ++i;
+          }
+          p += 4 * n;
+          continue;
+        }
+        d.clear();
+      }
+      for (std::size_t i(0); i < n; ++i, p += 4)
+      {
+        dataframe::example ex;
+        if (!parse_row(t, p, cls, ids, ex)) return "bad-op";
+        d.push_back(ex);
+      }
+    }
+    else if (op == "V")
+    {
+      ans += first ? " " : " | ";
+      first = false;
+      if (!eva) { ans += "skip-noeva"; continue; }
+      if (d.empty()) { ans += "skip-empty"; continue; }
+      if (cls && (d.classes() < 2 || (kind == "bin" && d.classes() != 2))) { ans += "skip-classes"; continue; }
+
+      std::string before(" dbefore");
+      for (const auto &e : d) before += " " + std::to_string(e.difficulty);
+
+      std::string mid;
+      if (cls)
+      {
+        const auto ms(members_of(prg));
+        mid = " classes " + std::to_string(d.classes()) + " members " + std::to_string(ms.size()) + " mouts";
+        for (const auto &m : ms)
+        {
+          basic_reg_lambda_f<i_mep, false> agent(m);
+          for (const auto &e : d) mid += " " + show(agent(e));
+        }
+        mid += tags_of(kind, prg, d, x_slot);
+        mid += " labels";
+        for (const auto &e : d) mid += " " + std::to_string(label(e));
+        mid += before;
+      }
+      else
+      {
+        mid = " targets";
+        for (const auto &e : d) mid += " " + showf(label_as<D_DOUBLE>(e));
+        mid += before + " outs";
+        basic_reg_lambda_f<T, false> agent(prg);
+        for (const auto &e : d) mid += " " + show(agent(e));
+      }
+
+      const auto fit(fast ? eva->fast(prg) : (*eva)(prg));
+
+      std::string diff(" diff");
+      for (const auto &e : d) diff += " " + std::to_string(e.difficulty);
+      ans += showfit(fit) + mid + diff;
+    }
+    else return "bad-op";
+  }
+  return ans;
+}
+
+std::string do_hist(symbols &S, const std::vector<std::string> &t)
+{
+  // hist reg|cls kind fast x_slot prog ops…
+  if (t.size() < 6) return "bad-op";
+  const bool cls(t[1] == "cls");
+  if (!cls && t[1] != "reg") return "bad-op";
+  const std::string kind(t[2]);
+  const bool is_cls_kind(kind == "dyn" || kind == "gau" || kind == "bin");
+  if (cls != is_cls_kind) return "bad-op";
+  const bool fast(t[3] == "1");
+  const unsigned x_slot(std::stoul(t[4]));
+  if (!x_slot) return "bad-op";
+  const std::string prog(t[5]);
+
+  if (prog.rfind("t:", 0) == 0)
+  {
+    std::vector<i_mep> members;
+    for (const auto &p : split_on(prog.substr(2), ',')) members.push_back(S.make(p));
+    const team<i_mep> tm(members);
+    return run_hist(tm, cls, kind, fast, x_slot, t, 6);
+  }
+  const i_mep ind(S.make(prog));
+  return run_hist(ind, cls, kind, fast, x_slot, t, 6);
+}
+
+// ---- scale-directed cases -----------------------------------------------------------------
+std::string do_big(symbols &S, const std::vector<std::string> &t)
+{
+  // big kind fast x_slot n k pos…
+  if (t.size() < 6) return "bad-op";
+  const std::string kind(t[1]);
+  const bool fast(t[2] == "1");
+  const unsigned x_slot(std::stoul(t[3]));
+  const std::size_t n(std::stoull(t[4])), k(std::stoull(t[5]));
+  if (t.size() != 6 + k || !x_slot) return "bad-op";
+  std::vector<bool> out(n, false);
+  for (std::size_t i(0); i < k; ++i)
+  {
+    const std::size_t pos(std::stoull(t[6 + i]));
+    if (pos >= n) return "bad-op";
+    out[pos] = true;
+  }
+  const bool cls(kind == "dyn" || kind == "gau" || kind == "bin");
+
+  dataframe d;
+  if (cls)
+  {
+    std::istringstream in("kA,0.5,1.5\nkB,0.5,1.5\n");
+    if (d.read_csv(in, dataframe::params().no_header()) != 2) return "bad-import";
+    d.clear();
+  }
+  for (std::size_t i(0); i < n; ++i)
+  {
+    dataframe::example ex;
+    if (cls)
+    {
+      const bool b(i % 2);
+      if (out[i] && !b) return "bad-op";
+      ex.output = static_cast<D_INT>(b ? 1 : 0);
+      ex.input = {(b && !out[i]) ? 100.0 : -100.0, 0.0};
+    }
+    else
+    {
+      const double x(static_cast<double>(i % 7) - 3.0);
+      ex.output = out[i] ? x + 1.0 : x;
+      ex.input = {x, 0.0};
+    }
+    ex.difficulty = 0;
+    d.push_back(ex);
+  }
+
+  const i_mep prg(S.make("x1"));
+  auto eva(make_eva<i_mep>(kind, d, x_slot));
+  if (!eva) return "bad-op";
+  const auto fit(fast ? eva->fast(prg) : (*eva)(prg));
+
+  std::size_t moved(0), i(0);
+  std::string rows;
+  for (const auto &e : d)
+  {
+    if (e.difficulty)
+    {
+      if (++moved <= 20) rows += " " + std::to_string(i);
+    }
+    ++i;
+  }
+  return "ok " + showfit(fit) + " n " + std::to_string(d.size()) + " moved " + std::to_string(moved) + " rows" + rows;
+}
+
 // ---- test_evaluator ----------------------------------------------------------------------
 std::string do_tev(const std::vector<std::string> &t)
 {
@@ -460,6 +714,8 @@ int main()
       else if (t[0] == "ga" || t[0] == "gaf" || t[0] == "de" || t[0] == "def") ans = do_ga(t);
       else if (t[0] == "gac") ans = do_gac(t);
       else if (t[0] == "tev") ans = do_tev(t);
+      else if (t[0] == "hist") ans = do_hist(S, t);
+      else if (t[0] == "big") ans = do_big(S, t);
       else if (t[0] == "small")
       {
         double v;
